@@ -192,11 +192,13 @@ class Script:
         self.lines.append(line)
         self.ann.append(ann)
 
-    def send(self, c, msgs, cuts=None, wf=True):
+    def send(self, c, msgs, cuts=None, wf=True, one=False):
         data = b"".join(m[0] for m in msgs)
         line = "send %d %s" % (c, hx(data))
         if cuts:
             line += " cuts=" + ",".join(str(x) for x in cuts)
+        if one:
+            line += " one=1"
         self.op(line, {"c": c, "wf": wf, "msgs": [list(m[1]) for m in msgs], "n": len(data)})
 
     def text(self):
@@ -206,11 +208,11 @@ class Script:
 VERSIONS = {3: b"RFB 003.003\n", 7: b"RFB 003.007\n", 8: b"RFB 003.008\n", 889: b"RFB 003.889\n", 5: b"RFB 003.005\n"}
 
 
-def handshake(sc, rng, c, pw, kind="full", minor=None, split=None):
-    """well-formed handshake of client c; kind: full|view (password screens)"""
+def handshake(sc, rng, c, pw, kind="full", minor=None, split=None, ws=False):
+    """well-formed handshake of client c; kind: full|view (password screens); ws: WebSocket transport"""
     minor = minor if minor is not None else rng.choice([3, 7, 8, 8, 8, 889, 5])
     split = rng.random() < 0.5 if split is None else split
-    sc.op("conn %d" % c, {"conn": c})
+    sc.op("conn %d%s" % (c, " ws" if ws else ""), {"conn": c, "ws": ws})
     hs = {"hs": c}
     v = VERSIONS[minor]
     if not pw:
@@ -242,7 +244,7 @@ def gen_mix(rng, nops):
     ncl = rng.choice([1, 1, 2, 2, 3])
     live = []
     for c in range(1, ncl + 1):
-        handshake(sc, rng, c, pw, kind=rng.choice(["full", "full", "view"]))
+        handshake(sc, rng, c, pw, kind=rng.choice(["full", "full", "view"]), ws=rng.random() < 0.35)
         live.append(c)
         if rng.random() < 0.2:
             sc.op("viewonly %d 1" % c, {"viewonly": (c, 1)})
@@ -271,7 +273,7 @@ def gen_mix(rng, nops):
                 else:
                     msgs.append(rnd_closing(rng))
             n = sum(len(m[0]) for m in msgs)
-            sc.send(c, msgs, rnd_cuts(rng, n))
+            sc.send(c, msgs, rnd_cuts(rng, n), one=rng.random() < 0.2)
             if any(m[1][0] == "closing" for m in msgs):
                 live.remove(c)
         elif r < 0.70:
@@ -303,7 +305,7 @@ def gen_mix(rng, nops):
                   {"c": c, "wf": False, "n": len(data)})
             live.remove(c)
         elif r < 0.95 and nxt < 8:
-            handshake(sc, rng, nxt, pw, kind=rng.choice(["full", "view"]))
+            handshake(sc, rng, nxt, pw, kind=rng.choice(["full", "view"]), ws=rng.random() < 0.35)
             live.append(nxt)
             nxt += 1
         elif utf8:
@@ -413,28 +415,36 @@ def seg_messages(rng, w, h):
     ]
 
 
-def gen_seg(rng, which, kcuts):
+def gen_seg(rng, which, kcuts, ws=False, sample=None):
     """every k-cut segmentation of one message (sequence); a sentinel key event follows each send so
-    that a parser that lost sync mangles it"""
-    sc = Script("seg")
+    that a parser that lost sync mangles it.  ws: the client is a WebSocket client and every segment
+    is its own frame (the cut is a FRAME boundary inside the message); additionally the whole op in
+    one frame, and all frames in one TCP segment"""
+    sc = Script("seg-ws" if ws else "seg")
     w, h = 40, 30
     sc.op("screen %d %d 0 0 0" % (w, h), {"screen": (w, h, 0, 0, 0)})
-    handshake(sc, rng, 1, 0, minor=8, split=False)
+    handshake(sc, rng, 1, 0, minor=8, split=False, ws=ws)
     name, msgs = which
     n = sum(len(m[0]) for m in msgs)
-    for cuts in all_cuts(n, kcuts):
+    cl = all_cuts(n, kcuts)
+    if sample is not None and len(cl) > sample:
+        cl = rng.sample(cl, sample)
+    for cuts in cl:
         sc.send(1, msgs + [m_key(1, 0x53454E54)], cuts)
+    if ws:
+        sc.send(1, msgs + [m_key(1, 0x53454E54)] + msgs)                    # several messages in one frame
+        sc.send(1, msgs + [m_key(1, 0x53454E54)], [n // 2, n + 3], one=True)  # several frames in one segment
     return sc
 
 
-def gen_limit(rng, lens, nclients=2, ext=False):
+def gen_limit(rng, lens, nclients=2, ext=False, ws=False):
     """classic ClientCutText around the 1 MiB limit, other clients must be unaffected"""
     sc = Script("limit")
     w, h = 40, 30
     sc.op("screen %d %d 0 %d 0" % (w, h, 1 if ext else 0), {"screen": (w, h, 0, 1 if ext else 0, 0)})
     c = 1
     for n in lens:
-        handshake(sc, rng, c, 0, minor=8, split=False)
+        handshake(sc, rng, c, 0, minor=8, split=False, ws=ws)
         handshake(sc, rng, c + 1, 0, minor=8, split=False)
         if ext:
             sc.send(c, [m_setenc([EXTCLIP])])
@@ -728,6 +738,7 @@ def classify(sc, impl, dist, seen):
             dist["msgs"][key] = dist["msgs"].get(key, 0) + 1
         if "c" in a and not a.get("wf"):
             dist["malformed_or_handshake_sends"] += 1
+    dist["ws_conns"] = dist.get("ws_conns", 0) + sum(1 for l in sc.lines if l.startswith("conn ") and l.endswith(" ws"))
     for l in sc.lines:
         if "cuts=" in l:
             k = l.split("cuts=")[1].count(",") + 1
@@ -766,6 +777,9 @@ def run(ctx):
                 scripts.append(gen_seg(rng, which, 2))
             if thorough and n <= 16:
                 scripts.append(gen_seg(rng, which, 3))
+            # the same over WebSocket: the cut is a frame boundary inside the message
+            scripts.append(gen_seg(rng, which, 1, ws=True))
+            scripts.append(gen_seg(rng, which, 2, ws=True, sample=None if thorough else 12))
         for _ in range(120 if not thorough else 3000):
             scripts.append(gen_mix(rng, rng.choice([10, 25, 50])))
         for _ in range(15 if not thorough else 150):
@@ -775,6 +789,7 @@ def run(ctx):
         scripts.append(gen_limit(rng, [0, 1, LIMIT - 1, LIMIT, LIMIT + 1]))
         scripts.append(gen_limit(rng, [LIMIT, LIMIT + 1, 0x7FFFFFFF, 0x80000000, 0xFFFFFFFF, 0xFFF00000 + 5], ext=False))
         scripts.append(gen_limit(rng, [LIMIT, 5, 0x7FFFFFFF], ext=True))
+        scripts.append(gen_limit(rng, [LIMIT, 70000, LIMIT + 1], ws=True))
         if thorough:
             for _ in range(6):
                 scripts.append(gen_limit(rng, [LIMIT - 1, LIMIT, LIMIT + 1, rng.randrange(2, LIMIT)]))
@@ -812,7 +827,7 @@ def run(ctx):
                     fl["finding"] = fid
                 fails.append(fl)
         classify(sc, impl, dist, seen)
-        if len(samples) < 4 and sc.family in ("mix", "gate", "defer") and len(sc.lines) < 40:
+        if len(samples) < 5 and sc.family in ("mix", "gate", "defer", "seg-ws") and len(sc.lines) < 40:
             samples.append({"script": [l[:200] for l in sc.lines], "impl": impl[:80]})
         if len(fails) >= 6:
             break
